@@ -34,6 +34,7 @@ REQUIRED = [
     "mgmt-order-unspecified",
     # cutting and scopes
     "optional-cut", "optional-false-kept",
+    "cut-does-not-compete",         # an optional / test / provided occurrence that would have been nearest does not win
     # keys
     "key-classifier", "key-type", "key-group",
     # repositories
